@@ -262,13 +262,27 @@ func (c *client) reconnecting() {
 // client would stay on a dead conn until the next keepalive ping, so it is
 // remembered and the loop runs once more.
 func (c *client) recoverLoss(connLost bool) {
+	c.recoverLossIf(connLost, nil)
+}
+
+// recoverLossIf is recoverLoss for a caller whose reason was established
+// outside the client lock (the keepalive's verdict): still is asked again
+// under the lock, once it is known that no recovery is running, and the
+// recovery is started only if the reason still holds. It reports whether the
+// reason had become stale, and whether a recovery was already running.
+func (c *client) recoverLossIf(connLost bool, still func() bool) (stale, running bool) {
 	c.Lock()
 	if c.doReconnectting {
 		if connLost {
 			c.lossPending = true
 		}
 		c.Unlock()
-		return
+		return false, true
+	}
+
+	if still != nil && !still() {
+		c.Unlock()
+		return true, false
 	}
 
 	c.doReconnectting = true
@@ -352,6 +366,8 @@ func (c *client) recoverLoss(connLost bool) {
 			c.recoverLoss(false)
 		}
 	}
+
+	return false, false
 }
 
 func (c *client) reconnect() error {
@@ -626,9 +642,23 @@ func (c *client) keepalive() {
 			verifhook.Point("ka.tick")
 			if err := check(); err != nil {
 				verifhook.Point("ka.after-check")
-				c.Logger.Errorf("keepalive error: %v", err)
-				c.reconnecting()
-				continue
+				// the verdict was formed outside the client lock: a
+				// recovery started by the conn's close callback may
+				// have replaced the conn (and reset the bookkeeping)
+				// since. Acting on it then recycled a healthy conn.
+				stale, running := c.recoverLossIf(false, func() bool {
+					if err := check(); err != nil {
+						c.Logger.Errorf("keepalive error: %v", err)
+						return true
+					}
+					return false
+				})
+				if running {
+					c.Logger.Errorf("keepalive error: %v", err)
+				}
+				if !stale {
+					continue
+				}
 			}
 
 			if err := ping(); err != nil {
